@@ -553,6 +553,8 @@ fn encode_args(
 
     let mut param_mask: raw::ParamMask = 0;
     let mut current_param_mask_bit: raw::ParamMask = 1;
+    let mut num_param_mask_bits = 0;
+    let mut first_arg_beyond_mask = None;
 
     // Important: we put the shortest iterator (args_iter) first in the zip list
     //            to ensure that this loop reads an equal number of items from all iters.
@@ -588,7 +590,13 @@ fn encode_args(
             } else {
                 param_mask |= arg_bit;
             }
+            // (once all bits are used up, this shifts to zero and no further bits can be recorded)
+            let is_reg = matches!(&arg.value, LowerArg::Raw(SimpleArg { is_reg: true, .. }) | LowerArg::Local { .. });
+            if is_reg && num_param_mask_bits >= raw::ParamMask::BITS && first_arg_beyond_mask.is_none() {
+                first_arg_beyond_mask = Some(arg);
+            }
             current_param_mask_bit <<= 1;
+            num_param_mask_bits += 1;
         } else if arg_bit != 0 {
             // Conceptually invalid since adding this to the
             // param mask would misalign all other mask bits
@@ -688,10 +696,10 @@ fn encode_args(
         }
     }
 
-    if current_param_mask_bit.trailing_zeros() > raw::ParamMask::BITS as _ {
+    if let Some(arg) = first_arg_beyond_mask {
         return Err(emitter.emit(error!(
             message("too many arguments in instruction!"),
-            primary(args[raw::ParamMask::BITS as usize], "too many arguments"),
+            primary(arg, "this argument has no bit in the {}-bit register mask", raw::ParamMask::BITS),
         )));
     }
 
